@@ -753,6 +753,304 @@ func vr06GetIDTo(v *vr06) int {
 	return tried
 }
 
+// ---------- fake rules / categories / annotations for the helper families ----------
+
+type vr06Cat struct {
+	check.Category
+	id string
+}
+
+func (c vr06Cat) ID() string { return c.id }
+
+type vr06Rule struct {
+	Rule
+	id   string
+	cats []string
+	typ  check.RuleType
+	dep  bool
+	repl []string
+}
+
+func (r vr06Rule) ID() string               { return r.id }
+func (r vr06Rule) Type() check.RuleType     { return r.typ }
+func (r vr06Rule) Deprecated() bool         { return r.dep }
+func (r vr06Rule) ReplacementIDs() []string { return r.repl }
+func (r vr06Rule) PluginName() string       { return "" }
+func (r vr06Rule) Default() bool            { return !r.dep }
+func (r vr06Rule) Categories() []check.Category {
+	var out []check.Category
+	for _, c := range r.cats {
+		out = append(out, vr06Cat{id: c})
+	}
+	return out
+}
+
+func (r vr06Rule) String() string {
+	s := r.id + "{" + strings.Join(r.cats, ",") + "}"
+	if r.typ == check.RuleTypeBreaking {
+		s += "/breaking"
+	}
+	if r.dep {
+		s += fmt.Sprintf("/deprecated->%v", r.repl)
+	}
+	return s
+}
+
+func vr06RuleLists() [][]Rule {
+	l, b := check.RuleTypeLint, check.RuleTypeBreaking
+	pool := []vr06Rule{
+		{id: "r1", cats: []string{"C1"}, typ: l},
+		{id: "r2", cats: []string{"C1", "C2"}, typ: l},
+		{id: "r3", typ: l},
+		{id: "b1", cats: []string{"C2"}, typ: b},
+		{id: "d1", cats: []string{"C2"}, typ: l, dep: true, repl: []string{"r1", "r3"}},
+		{id: "d0", typ: l, dep: true},
+		{id: "dx", typ: l, dep: true, repl: []string{"missing"}},
+		{id: "r1", cats: []string{"C9"}, typ: b}, // duplicate ID
+	}
+	var out [][]Rule
+	out = append(out, nil)
+	for i := range pool {
+		out = append(out, []Rule{pool[i]})
+		for j := range pool {
+			if i != j {
+				out = append(out, []Rule{pool[i], pool[j]})
+				for k := range pool {
+					if k != i && k != j && (k == 4 || k == 7 || k == 2) {
+						out = append(out, []Rule{pool[i], pool[j], pool[k]})
+					}
+				}
+			}
+		}
+	}
+	return out
+}
+
+func vr06RuleHelpers(fn string, v *vr06) int {
+	tried := 0
+	for _, rules := range vr06RuleLists() {
+		tried++
+		desc := fmt.Sprint(rules)
+		ids := map[string]int{}
+		for _, r := range rules {
+			ids[r.ID()]++
+		}
+		dupID := false
+		for _, n := range ids {
+			dupID = dupID || n > 1
+		}
+		switch fn {
+		case "rulesForType":
+			for _, typ := range []check.RuleType{check.RuleTypeLint, check.RuleTypeBreaking} {
+				var want []string
+				for _, r := range rules {
+					if r.Type() == typ {
+						want = append(want, fmt.Sprint(r))
+					}
+				}
+				var got []string
+				for _, r := range rulesForType(rules, typ) {
+					got = append(got, fmt.Sprint(r))
+				}
+				if fmt.Sprint(got) != fmt.Sprint(want) {
+					v.report("rulesForType(%s, %v) = %v, documented: exactly the rules of that type, in order: %v", desc, typ, got, want)
+				}
+			}
+		case "getRuleIDToCategoryIDs":
+			m, err := getRuleIDToCategoryIDs(rules)
+			if dupID {
+				if err == nil {
+					v.report("getRuleIDToCategoryIDs(%s) accepts the duplicate rule ID", desc)
+				}
+				continue
+			}
+			if err != nil {
+				v.report("getRuleIDToCategoryIDs(%s) fails: %v", desc, err)
+				continue
+			}
+			for _, r := range rules {
+				var want []string
+				for _, c := range r.Categories() {
+					want = append(want, c.ID())
+				}
+				if got, ok := m[r.ID()]; !ok || fmt.Sprint(got) != fmt.Sprint(want) {
+					v.report("getRuleIDToCategoryIDs(%s)[%s] = %v (present=%v), the rule declares %v", desc, r.ID(), got, ok, want)
+				}
+			}
+			if len(m) != len(rules) {
+				v.report("getRuleIDToCategoryIDs(%s) has %d keys for %d rules", desc, len(m), len(rules))
+			}
+		case "GetDeprecatedIDToReplacementIDs":
+			known := true
+			want := map[string][]string{}
+			for _, r := range rules {
+				if r.Deprecated() {
+					want[r.ID()] = r.ReplacementIDs()
+					for _, x := range r.ReplacementIDs() {
+						if ids[x] == 0 {
+							known = false
+						}
+					}
+				}
+			}
+			got, err := GetDeprecatedIDToReplacementIDs(rules)
+			if dupID || !known {
+				if err == nil {
+					v.report("GetDeprecatedIDToReplacementIDs(%s) = %v: accepted although an ID is duplicated or a replacement ID is unknown", desc, got)
+				}
+				continue
+			}
+			if err != nil {
+				v.report("GetDeprecatedIDToReplacementIDs(%s) fails: %v", desc, err)
+				continue
+			}
+			if len(got) != len(want) {
+				v.report("GetDeprecatedIDToReplacementIDs(%s) = %v, documented: exactly the deprecated IDs with their replacement IDs %v", desc, got, want)
+				continue
+			}
+			for id, repl := range want {
+				if g, ok := got[id]; !ok || g == nil || fmt.Sprint(g) != fmt.Sprint(append([]string{}, repl...)) {
+					v.report("GetDeprecatedIDToReplacementIDs(%s)[%s] = %v (present=%v), documented %v (non-nil)", desc, id, g, ok, repl)
+				}
+			}
+		}
+	}
+	if fn == "getCategoryIDToRuleIDs" {
+		for _, in := range []map[string][]string{
+			{}, {"r1": nil}, {"r1": {"C1"}}, {"r1": {"C1"}, "r2": {"C1", "C2"}, "r3": nil}, {"r1": {"C1", "C2"}, "r2": {"C2", "C1"}, "r3": {"C3"}}, {"r1": {""}},
+		} {
+			tried++
+			want := map[string]map[string]bool{}
+			for r, cs := range in {
+				for _, c := range cs {
+					if want[c] == nil {
+						want[c] = map[string]bool{}
+					}
+					want[c][r] = true
+				}
+			}
+			got := getCategoryIDToRuleIDs(in)
+			okAll := got != nil && len(got) == len(want)
+			for c, rs := range got {
+				seen := map[string]bool{}
+				for _, r := range rs {
+					okAll = okAll && want[c][r] && !seen[r]
+					seen[r] = true
+				}
+				okAll = okAll && len(rs) == len(want[c])
+			}
+			if !okAll {
+				v.report("getCategoryIDToRuleIDs(%v) = %v, documented: the inverse relation (category -> exactly the rules declaring it)", in, got)
+			}
+		}
+	}
+	return tried
+}
+
+type vr06Annotation struct {
+	check.Annotation
+	rule    string
+	loc     descriptor.FileLocation
+	against descriptor.FileLocation
+	desc    string
+}
+
+func (a vr06Annotation) RuleID() string                                { return a.rule }
+func (a vr06Annotation) Message() string                               { return a.desc }
+func (a vr06Annotation) FileLocation() descriptor.FileLocation        { return a.loc }
+func (a vr06Annotation) AgainstFileLocation() descriptor.FileLocation { return a.against }
+
+// filterAnnotations: the result is exactly the sub-sequence of annotations whose location (and against location)
+// no documented suppression covers - nothing added, nothing else removed, order kept.
+func vr06FilterAnnotations(v *vr06) int {
+	const prefix = "buf:lint:ignore"
+	type fileSpec struct {
+		path, pkg         string
+		unstable, isImport bool
+		commentOnField    string
+	}
+	specs := []fileSpec{
+		{"a/b/x.proto", "a.v1", false, false, ""},
+		{"a/c/y.proto", "a.v1", false, false, " " + prefix + " RULE_A\n"},
+		{"ab/x.proto", "b.v1beta1", true, false, ""},
+		{"dep/d.proto", "d.v1", false, true, ""},
+	}
+	type located struct {
+		spec fileSpec
+		loc  descriptor.FileLocation
+	}
+	var locs []located
+	for _, sp := range specs {
+		fd, err := vr06BuildFile(sp.path, sp.pkg, sp.isImport, map[string]string{"field0": sp.commentOnField})
+		if err != nil {
+			fmt.Printf("VERIF-REPLAY cannot build descriptor: %v\n", err)
+			return 0
+		}
+		locs = append(locs, located{sp, descriptor.NewFileLocation(fd, fd.ProtoreflectFileDescriptor().SourceLocations().ByPath(protoreflect.SourcePath{4, 0, 2, 0}))})
+	}
+	var annotations []*annotation
+	var specOf [][2]*fileSpec
+	for _, rule := range []string{"RULE_A", "RULE_B"} {
+		for i := range locs {
+			annotations = append(annotations, newAnnotation(vr06Annotation{rule: rule, loc: locs[i].loc, desc: fmt.Sprintf("%s@%s", rule, locs[i].spec.path)}, ""))
+			specOf = append(specOf, [2]*fileSpec{&locs[i].spec, nil})
+		}
+	}
+	annotations = append(annotations,
+		newAnnotation(vr06Annotation{rule: "RULE_A", desc: "RULE_A@<no location>"}, ""),
+		newAnnotation(vr06Annotation{rule: "RULE_B", loc: locs[0].loc, against: locs[2].loc, desc: "RULE_B@a/b/x.proto against ab/x.proto"}, ""),
+		newAnnotation(vr06Annotation{rule: "RULE_B", against: locs[3].loc, desc: "RULE_B@<no location> against dep/d.proto"}, ""),
+	)
+	specOf = append(specOf, [2]*fileSpec{nil, nil}, [2]*fileSpec{&locs[0].spec, &locs[2].spec}, [2]*fileSpec{nil, &locs[3].spec})
+	tried := 0
+	ignoreSets := []map[string]struct{}{nil, {"a": {}}, {"a/b": {}}, {"ab/x.proto": {}, "a/c": {}}, {"a/b/x": {}}}
+	onlySets := []map[string]map[string]struct{}{nil, {"RULE_A": {"a": {}}}, {"RULE_B": {"a/b": {}, "dep": {}}}, {"RULE_A": {"ab": {}}, "RULE_B": {"a/c/y.proto": {}}}}
+	for bits := 0; bits < 8; bits++ {
+		excludeImports, ignoreUnstable, allowComments := bits&1 != 0, bits&2 != 0, bits&4 != 0
+		for ii, ignore := range ignoreSets {
+			for oi, only := range onlySets {
+				tried++
+				cfg := &config{
+					rulesConfig:   &rulesConfig{IgnoreRootPaths: ignore, IgnoreRuleIDToRootPaths: only},
+					optionsConfig: &optionsConfig{AllowCommentIgnores: allowComments, IgnoreUnstablePackages: ignoreUnstable, ExcludeImports: excludeImports, CommentIgnorePrefix: prefix},
+				}
+				suppressed := func(rule string, sp *fileSpec) bool {
+					if sp == nil {
+						return false
+					}
+					return (excludeImports && sp.isImport) || vr06AnyAbove(ignore, sp.path) || vr06AnyAbove(only[rule], sp.path) || (ignoreUnstable && sp.unstable) ||
+						(allowComments && strings.Contains(sp.commentOnField, prefix+" "+rule))
+				}
+				var want []string
+				for i, a := range annotations {
+					if !suppressed(a.RuleID(), specOf[i][0]) && !suppressed(a.RuleID(), specOf[i][1]) {
+						want = append(want, a.Message())
+					}
+				}
+				got, err := filterAnnotations(cfg, annotations)
+				var gotDesc []string
+				for _, a := range got {
+					gotDesc = append(gotDesc, a.Message())
+				}
+				if err != nil || fmt.Sprint(gotDesc) != fmt.Sprint(want) {
+					v.report("filterAnnotations(config exclude_imports=%v ignore_unstable_packages=%v allow_comment_ignores=%v ignore set #%d %v ignore_only set #%d %v; annotations RULE_A and RULE_B on field M.one of a/b/x.proto, a/c/y.proto (comment `buf:lint:ignore RULE_A`), ab/x.proto (package b.v1beta1), dep/d.proto (import), plus three with missing/against locations) keeps %v (err %v); documented: exactly the unsuppressed ones in order %v",
+						excludeImports, ignoreUnstable, allowComments, ii, vr06MapKeys(ignore), oi, only, gotDesc, err, want)
+				}
+			}
+		}
+	}
+	return tried
+}
+
+func vr06MapKeys(m map[string]struct{}) []string {
+	out := make([]string, 0, len(m))
+	for k := range m {
+		out = append(out, k)
+	}
+	sort.Strings(out)
+	return out
+}
+
 func TestVerifReplayC06(t *testing.T) {
 	fn := os.Getenv("VERIF_REPLAY_FUNC")
 	v := &vr06{}
@@ -763,8 +1061,21 @@ func TestVerifReplayC06(t *testing.T) {
 		if v.found == 0 {
 			tried += vr06Suppression(v, true)
 		}
-	case "ignoreFileLocation":
+	case "ignoreFileLocation", "ignoreAnnotation":
 		tried += vr06Suppression(v, false)
+		if v.found == 0 {
+			tried += vr06FilterAnnotations(v)
+		}
+	case "filterAnnotations", "annotationsToFilteredFileAnnotationSetOrError":
+		tried += vr06FilterAnnotations(v)
+		if v.found == 0 {
+			tried += vr06Suppression(v, false)
+		}
+	case "rulesForType", "getRuleIDToCategoryIDs", "getCategoryIDToRuleIDs", "GetDeprecatedIDToReplacementIDs":
+		tried += vr06RuleHelpers(fn, v)
+		if v.found == 0 {
+			tried += vr06Selection(t, v)
+		}
 	case "transformRuleOrCategoryIDsToRuleIDs", "transformRuleIDsToUndeprecated", "transformRuleIDToIgnoreRootPathsToUndeprecated":
 		tried += vr06Helpers(fn, v)
 		if v.found == 0 {
